@@ -5,7 +5,7 @@ PID = 'C15'
 RULE = ('write_eci/read_eci: every boundary of the three designator forms, a stride over 0..999999 (all 1,000,000 in the '
         'thorough tier), numbers above the range; read_eci on all 1-byte and sampled 2-/3-byte sequences incl. every '
         'malformed class; decode_str on [241, designator, payload] for all 256 payload bytes x ECI 0,3,11,13,26,27 and other '
-        'ECI numbers (exhaustive); UTF-8 validation on structured valid/invalid sequences; non-trivial = accepted designator '
+        'ECI numbers (exhaustive); UTF-8 validation on structured valid/invalid sequences and on long sections (250..2050 bytes, up to 8200 thorough) of mixed character widths; non-trivial = accepted designator '
         'or printable payload')
 THEOREMS = 'C15_designator, C15_designator_range, C15_reject, C15_charsets, C15_other_eci, C15_utf8'
 ASSUMPTIONS = ['Spec/Eci.v states ISO/IEC 16022 Table 6 and ISO 8859-1/-9/-11 by formula',
@@ -88,6 +88,23 @@ def gen_cases(rng, tier, ctx):
         for _ in range(rng.range(1, 4)):
             seq += rng.choice(good + good + bad) if rng.chance(3, 4) else [rng.below(256) for _ in range(rng.range(1, 4))]
         cs.append({'line': 'from_utf8 %s' % fmt_list(seq), 'cat': 'utf8-random'})
+    # long UTF-8 sections (around 255/256, 1023..1025, 2047..2049, 4096 bytes) of mixed character widths, valid and with one damaged byte
+    def enc_utf8(c):
+        return list(chr(c).encode('utf-8'))
+    pool = [0x41, 0x7A, 0xE9, 0x3A9, 0x20AC, 0x4E2D, 0x1F600, 0x10FFFF, 0x7FF, 0x800]
+    for target in ([250, 1020, 1030, 2050] if tier == 'quick' else [250, 260, 510, 1020, 1024, 1030, 1500, 2040, 2050, 4100, 8200]):
+        for variant in range(3 if tier == 'quick' else 8):
+            scal = []
+            n = 0
+            while n < target:
+                c = rng.choice(pool if variant else pool[2:6])
+                scal.append(c)
+                n += len(enc_utf8(c))
+            bs = [b for c in scal for b in enc_utf8(c)]
+            if variant == 2:
+                bs[rng.below(len(bs))] ^= 0x80
+            cs.append({'line': 'decode_str %s' % fmt_list([241, 27] + [x for b in bs for x in payload(b)]), 'cat': 'utf8-long', 'bytes': bs})
+            cs.append({'line': 'from_utf8 %s' % fmt_list(bs), 'cat': 'utf8-long'})
     for lead in range(0x80, 0x100):
         for b1 in (0x7F, 0x80, 0x8F, 0x90, 0x9F, 0xA0, 0xBF, 0xC0):
             cs.append({'line': 'from_utf8 %s' % fmt_list([lead, b1, 0x80, 0x80]), 'cat': 'utf8-lead'})
@@ -141,6 +158,12 @@ def check_impl(c, out, ctx, prof):
         if want is None:
             return None if out == 'err CharsetError' else 'ECI %d byte 0x%02X: %s, should be CharsetError' % (e, b, out)
         return None if out == 'ok %d' % want else 'ECI %d byte 0x%02X decoded as %s, the character set says U+%04X' % (e, b, out, want)
+    if c['cat'] == 'utf8-long' and a[0] == 'decode_str':
+        try:
+            want = 'ok ' + fmt_list([ord(ch) for ch in bytes(c['bytes']).decode('utf-8')])
+        except UnicodeDecodeError:
+            want = 'err CharsetError'
+        return None if out == want else 'UTF-8 section of %d bytes: %s..., python says %s...' % (len(c['bytes']), out[:40], want[:40])
     return None
 
 
